@@ -331,7 +331,7 @@ class Program:
         if isinstance(node, ast.Call):
             fn = node.func
             # str methods on folded receivers
-            if isinstance(fn, ast.Attribute) and fn.attr in ("lstrip", "rstrip", "strip", "lower", "upper", "split", "keys", "values", "items"):
+            if isinstance(fn, ast.Attribute) and fn.attr in ("lstrip", "rstrip", "strip", "lower", "upper", "split", "keys", "values", "items", "replace"):
                 recv = f(fn.value)
                 args = [f(a) for a in node.args]
                 if fn.attr in ("keys", "values", "items"):
@@ -340,6 +340,9 @@ class Program:
                     return getattr(recv, fn.attr)(*args)
                 raise CannotFold(f"method on non-str: {unparse(node)}")
             cname = unparse(fn)
+            if cname == "re.escape" and len(node.args) == 1:
+                import re as _re
+                return _re.escape(f(node.args[0]))
             if cname in ("collections.OrderedDict", "OrderedDict", "dict"):
                 out = {}
                 if node.args:
